@@ -43,14 +43,16 @@ func (wb *WriteBuffer) Add(entry Entry) bool {
 	wb.entries = append(wb.entries, entry)
 	wb.currentSize += entry.Size()
 
-	return wb.currentSize >= wb.maxSize
+	// A block header counts its entries in 16 bits: never let a block grow past that,
+	// whatever the size limit is.
+	return wb.currentSize >= wb.maxSize || len(wb.entries) >= MaxEntriesPerBlock
 }
 
 // ShouldFlush returns true if the buffer has reached its maximum size
 func (wb *WriteBuffer) ShouldFlush() bool {
 	wb.mu.Lock()
 	defer wb.mu.Unlock()
-	return wb.currentSize >= wb.maxSize
+	return wb.currentSize >= wb.maxSize || len(wb.entries) >= MaxEntriesPerBlock
 }
 
 // IsEmpty returns true if the buffer has no entries
@@ -125,6 +127,11 @@ func (wb *WriteBuffer) buildBlockLocked() (*BlockHeader, []byte, error) {
 		return nil, nil, err
 	}
 
+	// Refuse (and keep the buffer) rather than truncate a header field
+	if err := checkBlockLimits(len(wb.entries), len(uncompressed), len(compressed)); err != nil {
+		return nil, nil, err
+	}
+
 	// Create block header
 	header := &BlockHeader{
 		CompressedSize:   uint32(len(compressed)),
@@ -135,6 +142,16 @@ func (wb *WriteBuffer) buildBlockLocked() (*BlockHeader, []byte, error) {
 	}
 
 	return header, compressed, nil
+}
+
+// checkBlockLimits verifies that a block's entry count and sizes fit the block header fields.
+func checkBlockLimits(entries, uncompressedSize, compressedSize int) error {
+	if entries > MaxEntriesPerBlock ||
+		uint64(uncompressedSize) > MaxBlockDataSize ||
+		uint64(compressedSize) > MaxBlockDataSize {
+		return ErrBlockTooLarge
+	}
+	return nil
 }
 
 // GetEntriesAndClear returns all entries and clears the buffer.
@@ -238,6 +255,10 @@ func CompressEntries(entries []Entry) (*BlockHeader, []byte, error) {
 	// Compress using the shared compressor
 	compressed, err := snappyCompressor.Compress(uncompressed)
 	if err != nil {
+		return nil, nil, err
+	}
+
+	if err := checkBlockLimits(len(entries), len(uncompressed), len(compressed)); err != nil {
 		return nil, nil, err
 	}
 
